@@ -3,6 +3,8 @@ package dvsim
 import (
 	"fmt"
 	"os"
+	"path/filepath"
+	"sort"
 	"strings"
 )
 
@@ -24,6 +26,10 @@ type Machine struct {
 	Apply func(s *Sim, op string) // op interpreter (must call s.EndOp())
 
 	ValidateFirst, ValidateEvery int
+	Opt                          Options // simulation options (router names)
+	// Tag "<check id>|<config>" names the marker files by which a worker tells the others (and the
+	// parent) that the restore shortcut was abandoned for this configuration.
+	Tag string
 
 	live  *Sim
 	owner *Lazy
@@ -38,7 +44,11 @@ type Machine struct {
 }
 
 func NewMachine(g Graph, init func(*Sim), apply func(*Sim, string)) *Machine {
-	m := &Machine{G: g, Init: init, Apply: apply, ValidateFirst: 25, ValidateEvery: 400, cache: map[string]*SimState{}, cap: 4000}
+	return NewMachineOpt(g, init, apply, Options{}, "")
+}
+
+func NewMachineOpt(g Graph, init func(*Sim), apply func(*Sim, string), opt Options, tag string) *Machine {
+	m := &Machine{G: g, Init: init, Apply: apply, Opt: opt, Tag: tag, ValidateFirst: 25, ValidateEvery: 400, cache: map[string]*SimState{}, cap: 4000}
 	if os.Getenv("VERIF_DV_NOCACHE") != "" {
 		m.noCache = true // plain re-execution for everything (debugging / differential runs)
 	}
@@ -48,7 +58,7 @@ func NewMachine(g Graph, init func(*Sim), apply func(*Sim, string)) *Machine {
 }
 
 func (m *Machine) fresh() *Sim {
-	s := NewSim(m.G)
+	s := NewSimOpt(m.G, m.Opt)
 	if m.Init != nil {
 		m.Init(s)
 	}
@@ -114,10 +124,16 @@ func (l *Lazy) Sim() *Sim {
 				m.Apply(ref, op)
 			}
 			want = ref.FullDump()
+			ref.Close()
 			m.Stats.Validations++
 		}
+		if m.count%64 == 0 && !m.noCache && m.fallbackSeen() {
+			m.noCache = true
+		}
 		if m.noCache {
+			m.live.Close()
 			m.live = m.fresh()
+			k = 0
 		} else {
 			m.live.Restore(st)
 		}
@@ -140,10 +156,20 @@ func (l *Lazy) Sim() *Sim {
 						m.Apply(ref, op)
 					}
 					nondet = ref.FullDump() != want
+					ref.Close()
 				}
 				if !nondet {
-					fmt.Fprintf(os.Stderr, "CHECK-ERROR: dvsim: restored state differs from plain re-execution after %v (restored prefix %d)\n--- re-executed\n%s--- restored\n%s", l.Hist, k, want, got)
-					os.Exit(3)
+					// The routers carry state that Save/Restore does not cover (e.g. a private field
+					// added to a table): the shortcut is unsound for this source tree. Abandon it for
+					// this configuration - every state is computed by plain re-execution from now on,
+					// slower but sound - and let the oracles judge.
+					fmt.Fprintf(os.Stderr, "dvsim: restored state differs from plain re-execution after %v (restored prefix %d); falling back to plain re-execution for %q\n", l.Hist, k, m.Tag)
+					m.fallback()
+					m.live.Close()
+					m.live = m.fresh()
+					l.pos = 0
+					l.run()
+					return m.live
 				}
 				m.Nondet = append(m.Nondet, fmt.Sprintf("re-executing the history %v twice from fresh routers gives different router states", l.Hist))
 				// the plain re-executions clobbered clock and queue: put the live state back
@@ -190,4 +216,67 @@ func (l *Lazy) Invalidate() {
 	if l.m.owner == l {
 		l.m.owner = nil
 	}
+}
+
+// ---------------------------------------------------------------------------------------------
+// Fallback markers
+
+func fallbackDir(id string) string {
+	b := os.Getenv("VERIF_BUILD_DIR")
+	if b == "" {
+		b = os.TempDir()
+	}
+	return filepath.Join(b, "fallback-"+id)
+}
+
+// ResetFallbackDir empties the marker directory (parent, before the search).
+func ResetFallbackDir(id string) {
+	os.RemoveAll(fallbackDir(id))
+	os.MkdirAll(fallbackDir(id), 0o755)
+}
+
+func (m *Machine) marker() (dir, prefix string) {
+	p := strings.SplitN(m.Tag, "|", 2)
+	if len(p) != 2 {
+		return "", ""
+	}
+	return fallbackDir(p[0]), strings.NewReplacer(" ", "_", ":", "_", "/", "_", "=", "_", ",", "_").Replace(p[1]) + "."
+}
+
+// fallback abandons the restore shortcut in this worker and leaves a marker for the others.
+func (m *Machine) fallback() {
+	m.noCache = true
+	m.cache = map[string]*SimState{}
+	m.fifo = nil
+	if dir, pre := m.marker(); dir != "" {
+		os.MkdirAll(dir, 0o755)
+		os.WriteFile(filepath.Join(dir, pre+fmt.Sprint(os.Getpid())), []byte(m.Tag+"\n"), 0o644)
+	}
+}
+
+func (m *Machine) fallbackSeen() bool {
+	dir, pre := m.marker()
+	if dir == "" {
+		return false
+	}
+	ms, _ := filepath.Glob(filepath.Join(dir, pre+"*"))
+	return len(ms) > 0
+}
+
+// FallbackConfigs lists the configurations of check id in which some worker abandoned the restore
+// shortcut (parent, after the search).
+func FallbackConfigs(id string) []string {
+	set := map[string]bool{}
+	fs, _ := filepath.Glob(filepath.Join(fallbackDir(id), "*"))
+	for _, f := range fs {
+		if b, err := os.ReadFile(f); err == nil {
+			set[strings.TrimSpace(string(b))] = true
+		}
+	}
+	out := []string{}
+	for k := range set {
+		out = append(out, k)
+	}
+	sort.Strings(out)
+	return out
 }
